@@ -16,6 +16,7 @@ import time
 
 from . import pristine
 from .generator import splitmix64
+from .ops import OPS
 
 VERIF = os.path.dirname(os.path.dirname(os.path.abspath(__file__)))
 PROPERTY = "C13"
@@ -52,6 +53,11 @@ _W = {"r2": [], "seen": set()}
 
 def _worker_init():
     faulthandler.enable()
+
+
+def audit_task():
+    from . import worker
+    return worker.run_job({"mode": "audit"})
 
 
 def worker_task(jobs):
@@ -478,8 +484,10 @@ def cmd_check(tier, seed, nworkers, scale):
     faulthandler.dump_traceback_later(PLAN[tier]["cap"] + 1500, exit=True)
     with cf.ProcessPoolExecutor(max_workers=chk.nworkers, mp_context=ctx, initializer=_worker_init) as pool:
         try:
+            audit_f = pool.submit(audit_task)
             chk.run_batches(pool)
             t_batches = time.time() - t0
+            chk.audit = audit_f.result().get("audit")
             ref = chk.reference_sampling(scratch)
             det = chk.determinism(pool, scratch)
         except cf.process.BrokenProcessPool as e:
@@ -582,6 +590,8 @@ def evidence(chk, ref, det, state, wall, t_batches, new, kn):
                 "F5_other_process": {"r2_keys_two_hash_seeds": ref["r2_keys"], "r3_history_replays": ref["r3_replays"]},
                 "F6_failing_requests": {"calls_raising": st.get("calls_raising", 0)},
             },
+            "alphabet": {"ops": len(OPS), "ops_called": len(fam("op:")), "ops_never_called": sorted(set(OPS) - set(fam("op:"))),
+                         "calls_by_op": fam("op:"), "public_api_audit": getattr(chk, "audit", None)},
             "returned_subobjects_aliased_to_library_state": st.get("returned_subobjects_aliased_to_library_state", 0),
             "cold_loads": st.get("cold_loads", 0), "tables_loaded": sorted(a["warm_files"]), "cold_loads_by_table": fam("cold:"),
             "oracle": {"R1_pristine_fork": a["oracle"], "R2": {k: ref[k] for k in ("r2_keys", "r2_agree", "r2_single", "r2_single_agree")},
